@@ -50,45 +50,62 @@ where
     R: io::Read + ?Sized,
 {
     let mut result = 0;
-    let mut shift = 0;
+    let mut shift: u32 = 0;
     loop {
         let mut buf = [0];
         r.read_exact(&mut buf)?;
-        if shift == 127 && buf[0] != 0x00 && buf[0] != 0x01 {
+        let low_bits = (buf[0] & !CONTINUATION_BIT) as u128;
+        // The 19th group holds bits 126..=132, of which only the lowest two fit in
+        // a u128; later groups may only be zero padding.
+        if (shift == 126 && low_bits > 0x03) || (shift > 126 && low_bits != 0) {
             while buf[0] & CONTINUATION_BIT != 0 {
                 r.read_exact(&mut buf)?;
             }
             return Err(Error::msg("nat overflow"));
         }
-        let low_bits = (buf[0] & !CONTINUATION_BIT) as u128;
-        result |= low_bits << shift;
+        if shift <= 126 {
+            result |= low_bits << shift;
+        }
         if buf[0] & CONTINUATION_BIT == 0 {
             return Ok(result);
         }
-        shift += 7;
+        shift = (shift + 7).min(133);
     }
 }
 pub fn decode_int<R>(r: &mut R) -> Result<i128>
 where
     R: io::Read + ?Sized,
 {
-    let mut result = 0;
-    let mut shift = 0;
+    let mut result: i128 = 0;
+    let mut shift: u32 = 0;
     let size = 128;
     let mut byte;
     loop {
         let mut buf = [0];
         r.read_exact(&mut buf)?;
         byte = buf[0];
-        if shift == 127 && byte != 0x00 && byte != 0x7f {
+        let low_bits = byte & !CONTINUATION_BIT;
+        // The 19th group holds bits 126..=132: everything above bit 127 has to
+        // repeat the sign bit. Later groups may only be sign padding.
+        let in_range = if shift < 126 {
+            true
+        } else if shift == 126 {
+            matches!(low_bits, 0x00 | 0x01 | 0x7e | 0x7f)
+        } else if result < 0 {
+            low_bits == 0x7f
+        } else {
+            low_bits == 0x00
+        };
+        if !in_range {
             while buf[0] & CONTINUATION_BIT != 0 {
                 r.read_exact(&mut buf)?;
             }
             return Err(Error::msg("int overflow"));
         }
-        let low_bits = (byte & !CONTINUATION_BIT) as i128;
-        result |= low_bits << shift;
-        shift += 7;
+        if shift <= 126 {
+            result |= (low_bits as i128) << shift;
+        }
+        shift = (shift + 7).min(133);
         if byte & CONTINUATION_BIT == 0 {
             break;
         }
